@@ -7,7 +7,8 @@
 //! exactly the input (`crate::dec::decode_dict`).  Input kinds: `tail` (starts with the dictionary's tail, so the
 //! first copy crosses the dictionary end; then text, dictionary substrings, noise), `period` (continues a short
 //! period of the dictionary tail: overlapping copy across the dictionary end), `text` (static-dictionary words),
-//! `tiny` (0..3 bytes), `long` (longer than the encoder ring buffer).  APIs: streaming
+//! `tiny` (0..3 bytes), `long` (longer than the encoder ring buffer), `shrunk` (one last meta-block with d' + len within 16 of a
+//! power of two and a late copy of the oldest dictionary bytes: the decoder's shrunk ring buffer).  APIs: streaming
 //! (`set_custom_dictionary` + `compress_stream`, random chunking) and one-shot `BrotliCompressCustomIoCustomDict`.
 //!
 //! Correspondence stage: `dict book <lgwin> <quality> <size> <seed>` — the book-keeping fields of the encoder right
@@ -204,7 +205,7 @@ impl Case {
         Some(Case { lgwin: f[0] as i32, q: f[1] as i32, d: f[2] as usize, seed: f[3], magic: f[4] != 0, kind: f[5] as u32, api: f[6] as u32, iseed: f[7] })
     }
 }
-pub const KINDS: [&str; 5] = ["tail", "period", "text", "tiny", "long"];
+pub const KINDS: [&str; 6] = ["tail", "period", "text", "tiny", "long", "shrunk"];
 
 pub fn d_class(d: usize, lgwin: i32) -> String {
     let w = 1usize << lgwin.clamp(10, 24);
@@ -239,6 +240,23 @@ pub fn make_input(c: &Case, dict: &[u8]) -> Vec<u8> {
         }
         2 => { let o = rng.below(60) as usize; let l = rng.range(30, (TEXT.len() - o) as u64) as usize; v.extend_from_slice(&TEXT[o..o + l]); if rng.chance(1, 2) { sub(&mut rng, &mut v); v.extend_from_slice(&TEXT[..50]); } }
         3 => { let n = rng.below(4) as usize; for i in 0..n { v.push(if d > i { dict[d - 1 - i] } else { rng.next() as u8 }); } }
+        5 => { // shrunk: d' + len within 16 of a power of two (the decoder shrinks its ring for a single last meta-block) and,
+               // in the last bytes, a copy of the OLDEST bytes of the usable dictionary tail continued by the input's start
+            let w = (1usize << c.lgwin.clamp(10, 24)) - 16;
+            let de = d.min(w);
+            let mut k = 6; while (1usize << k) < de + 40 { k += 1; }
+            let r = 1usize << k;
+            let len = r - de - rng.below(16) as usize;
+            let m = rng.range(4, 9) as usize;
+            let body = len - m - rng.below(4).min((len - m) as u64 / 2) as usize;
+            while v.len() < body {
+                match rng.below(3) { 0 => { let o = rng.below(TEXT.len() as u64 - 24) as usize; let l = rng.range(3, 20) as usize; v.extend_from_slice(&TEXT[o..o + l]); } 1 => sub(&mut rng, &mut v), _ => { for _ in 0..rng.range(1, 6) { v.push(rng.next() as u8); } } }
+            }
+            v.truncate(body);
+            let head: Vec<u8> = dict[d - de..].iter().cloned().chain(v.iter().cloned()).take(m).collect();
+            v.extend_from_slice(&head);
+            while v.len() < len { v.push(rng.next() as u8); }
+        }
         _ => { // long: > ring buffer (q<=3: 2^(1+max(lgwin,14)), else 2^(1+max(lgwin,16..18)))
             let lw = c.lgwin.clamp(10, 24);
             let target = if c.q < 4 { (1usize << (1 + lw.max(14))) + 5000 } else { (1usize << (1 + lw.max(16))) + 70000 };
@@ -305,7 +323,15 @@ fn run_case(c: &Case, rep: &mut Report) {
         DResult::NeedsMoreInput(v) => ("decode-truncated", format!("decoder given the same {}-byte dictionary wants more input after {} bytes", c.d, v.len())),
         DResult::TooBig => ("decode-toobig", "decoder output exceeds the input length".to_string()),
     };
-    let sig = if unsanitised { format!("dict:{}:clamped-lgwin", kind) } else { format!("dict:{}:{}:{}", kind, dcl, qcl) };
+    // known decoder-side class: the same case with `appendable = true` (the decoder then keeps its full ring) round-trips
+    let mut sig = if unsanitised { format!("dict:{}:clamped-lgwin", kind) } else { format!("dict:{}:{}:{}", kind, dcl, qcl) };
+    if c.d >= 1 && c.q >= 2 {
+        let mut p2 = p.clone();
+        p2.appendable = true;
+        if let Ok((o2, _)) = encode_stream_x(&input, &dict, false, &p2, &[1 << 20], 1 << 16, &mut |_, _, _, _| ()) {
+            if matches!(decode_dict(&o2, &dict, input.len() + (1 << 16)), DResult::Ok(v) if v == input) { sig = format!("dict:{}:decoder-shrunk-ring", kind); }
+        }
+    }
     rep.violation(&sig, &what, c.json());
     rep.sample(format!("{} {}", sig, c.corpus_line()));
 }
@@ -363,6 +389,17 @@ fn cases(thorough: bool, seed: u64) -> Vec<Case> {
             cs.push(Case { lgwin, q, d, seed: rng.below(251), magic: rng.chance(1, 2), kind: 4, api: rng.below(3) as u32, iseed: rng.next() >> 16 });
         }
     }
+    // shrunk decoder ring: single last meta-block with d' + len just below a power of two
+    for &lgwin in &[10i32, 12, 16, 22] {
+        for q in 2..12 {
+            let n = if thorough { 40 } else { 8 };
+            for _ in 0..n {
+                let w = 1usize << lgwin;
+                let d = *rng.pick(&[1usize, 1, 2, 3, 5, 9, 17, 40, 200, w - 16, w + 5]);
+                cs.push(Case { lgwin, q, d, seed: rng.below(251), magic: false, kind: 5, api: rng.below(3) as u32, iseed: rng.next() >> 16 });
+            }
+        }
+    }
     // out-of-range window values (clamped by SanitizeParams: accepted settings, same oracle)
     for &lgwin in &[-3i32, 0, 3, 4, 5, 8, 9] {
         for q in [0, 2, 5, 9, 11] { for d in [1usize, 16, 17, 240, 600, 1007, 1008, 1009, 3000] { cs.push(Case { lgwin, q, d, seed: rng.below(251), magic: rng.chance(1, 2), kind: rng.below(3) as u32, api: rng.below(3) as u32, iseed: rng.next() >> 16 }); } }
@@ -395,6 +432,24 @@ fn corr_lines(thorough: bool, seed: u64) -> Vec<(i32, i32, usize, u64)> {
         }
     }
     v
+}
+
+fn probe_case(line: &str) {
+    let c = Case::parse(line).unwrap();
+    let dict = gen_dict(c.seed, c.d);
+    let input = make_input(&c, &dict);
+    println!("input ({} bytes) = {}", input.len(), hex(&input));
+    println!("dict = {}", hex(&dict));
+    for api in 0..4u32 {
+        let mut p = base_params(c.q, c.lgwin);
+        p.magic_number = c.magic;
+        if api == 3 { p.appendable = true; }
+        let out = match api { 0 => encode_stream_x(&input, &dict, false, &p, &[1 << 20], 1 << 16, &mut |_, _, _, _| ()).map(|x| x.0), 1 => encode_stream_x(&input, &dict, false, &p, &[7], 5, &mut |_, _, _, _| ()).map(|x| x.0), _ => encode_oneshot(&input, &dict, &p, 4096, 4096, &mut |_, _, _, _| ()) };
+        match out {
+            Ok(o) => { let dr = decode_dict(&o, &dict, input.len() + 1000); println!("api {} -> {} bytes {} ; decode: {}", api, o.len(), hex(&o), match &dr { DResult::Ok(v) if *v == input => "ok".to_string(), DResult::Ok(v) => format!("WRONG {}", hex(v)), x => format!("{:?}", x) }); }
+            Err(e) => println!("api {} -> {}", api, e),
+        }
+    }
 }
 
 fn probe() {
@@ -455,6 +510,7 @@ fn probe() {
 
 pub fn run_cmd(args: &Args) {
     if args.rest.first().map(|s| s.as_str()) == Some("probe") { probe(); return; }
+    if args.rest.first().map(|s| s.as_str()) == Some("case") { probe_case(&args.rest[1..].join(" ")); return; }
     let thorough = args.tier == "thorough";
     let mut corr = Corr::new(&args.out);
     let mut rep = Report::default();
